@@ -133,9 +133,6 @@ PROPERTY_META["C20"] = dict(
 host("chess-bitboard", "chess-bitboard/src/lib.rs", "kani_verif_arb", "harness/chess-bitboard/arb.rs")
 host("chess-bitboard", "chess-bitboard/src/lib.rs", "kani_verif_c18", "harness/chess-bitboard/c18.rs")
 _BB = "chess-bitboard/src/lib.rs"
-CONTRACTS.append(dict(file=_BB, anchor=r"pub fn pop\(&mut self\) -> Option<Pos>", attrs=[
-    "kani::ensures(|r: &Option<Pos>| match r { None => old(self.0) == 0 && self.0 == 0, Some(p) => { let o = old(self.0); let b = 1u64 << (*p as u8); o & b != 0 && o & (b - 1) == 0 && self.0 == o & !b } })",
-    "kani::modifies(self)"]))
 CONTRACTS.append(dict(file=_BB, anchor=r"pub unsafe fn pop_unchecked\(&mut self\) -> Pos", attrs=[
     "kani::requires(self.0 != 0)",
     "kani::ensures(|p: &Pos| { let o = old(self.0); let b = 1u64 << (*p as u8); o & b != 0 && o & (b - 1) == 0 && self.0 == o & !b })",
@@ -150,7 +147,6 @@ _c18 = [
  ("shifts", "c18_shifts", "shift_up/down/left/right move every square one step, edge squares vanish, nothing wraps; flip_ranks maps q to q^56", ["BitBoard::shift_up", "BitBoard::shift_down", "BitBoard::shift_left", "BitBoard::shift_right", "BitBoard::flip_ranks"], {}),
  ("count", "c18_count", "count == number of members (64-step count); any/none/all/some; size_hint exact", ["BitBoard::count", "BitBoard::any", "BitBoard::none", "BitBoard::all", "BitBoard::some", "BitBoardIter::size_hint"], {}),
  ("pop", "c18_pop", "pop / pop_unchecked: returns the lowest member and removes exactly it; None iff empty", ["BitBoard::pop", "BitBoard::pop_unchecked"], {}),
- ("pop.contract", "c18_pop_contract", "attribute contract on BitBoard::pop (proof_for_contract)", ["BitBoard::pop"], dict(packaging="attribute contract (kani::ensures/modifies woven onto the fn)")),
  ("pop_unchecked.contract", "c18_pop_unchecked_contract", "attribute contract on BitBoard::pop_unchecked: requires non-empty", ["BitBoard::pop_unchecked"], dict(packaging="attribute contract (kani::requires/ensures/modifies woven onto the fn)")),
  ("set.contract", "c18_set_contract", "attribute contract on BitBoard::set", ["BitBoard::set"], dict(packaging="attribute contract")),
  ("clear.contract", "c18_clear_contract", "attribute contract on BitBoard::clear", ["BitBoard::clear"], dict(packaging="attribute contract")),
@@ -296,6 +292,7 @@ PROPERTY_META["C17"] = dict(
 _MG = "chess-movegen/src/lib.rs"
 host("chess-movegen", _MG, "verif_geom", "spec/geom.rs", pub=True)
 host("chess-movegen", _MG, "verif_rules", "spec/rules.rs", pub=True)
+host("chess-movegen", _MG, "verif_fen", "spec/fen.rs", pub=True)
 host("chess-movegen", _MG, "kani_verif_common", "harness/chess-movegen/common.rs")
 host("chess-movegen", _MG, "kani_verif_deps", "harness/chess-movegen/deps.rs")
 host("chess-movegen", _MG, "kani_verif_c06", "harness/chess-movegen/c06.rs")
@@ -317,3 +314,196 @@ ob("C03.pin_info", ["C03", "C06"], "chess-movegen", "kani_verif_c06::c03_pin_inf
    contract="{one king each, <= 16 per side, side not to move not in check} update_pin_info() {checkers == enemy pieces attacking the mover's king; pinned == sole blockers between the king and an enemy slider on that line; no other field modified}; every placement, both colours")
 ob("C06.cover", "C06", "chess-movegen", "kani_verif_c06::c06_cover", kind="cover", flags="full", timeout=1800, mem_gb=8, contract="vacuity guard: accepted boards with all rights / e.p. for either colour / 16+16 pieces exist")
 ob("C06.negtwin", "C06", "chess-movegen", "kani_verif_c06::c06_negtwin", kind="negtwin", expect="refuted", flags="full", timeout=1800, mem_gb=8, contract="negated twin: must be refuted")
+
+# =========================================================================== C10 move iterator
+host("chess-movegen", "chess-movegen/src/fen.rs", "kani_verif_fen", "harness/chess-movegen/fen.rs")
+host("chess-movegen", "chess-movegen/src/iter.rs", "kani_verif_c10", "harness/chess-movegen/c10.rs")
+host("chess-movegen", "chess-movegen/src/iter/pieces.rs", "kani_verif_c01", "harness/chess-movegen/c01.rs")
+_c10 = [
+ ("next", "c10_next", "{wf(g), entries of one source disjoint} next() {None <=> view(g) empty; Some(m) => m in view(old), m not in view/pending(new), every other move's membership in view and pending unchanged, |view| drops by exactly 1, wf preserved}", ["<MoveGen as Iterator>::next"]),
+ ("len", "c10_len", "{wf(g)} len() == |view(g)|; is_empty() <=> |view| == 0; size_hint() == (len, Some(len)); count() == len — at every point of an iteration incl. a partly expanded promotion", ["MoveGen::len", "MoveGen::is_empty", "MoveGen::size_hint", "MoveGen::count"]),
+ ("set_mask", "c10_set_mask", "{cursor at rest} set_mask(m) {pending unchanged (the raw-pointer compaction is a permutation); view(new) = {q in pending : q.dest in m}; index = 0; wf}", ["MoveGen::set_mask"]),
+ ("remove", "c10_remove", "{wf, cursor at rest} remove(m) {pending(new) = pending minus dest in m; view(new) = view minus dest in m; wf}", ["MoveGen::remove"]),
+ ("remove_move", "c10_remove_move", "{wf, distinct, cursor at rest, mv has no promotion piece and hits no promotion entry (open finding K1)} remove_move(mv) {result <=> mv in pending(old); pending/view lose exactly mv; wf}", ["MoveGen::remove_move"]),
+ ("clone", "c10_clone", "clone has the same view and pending; advancing the clone leaves the original unchanged", ["<MoveGen as Clone>::clone (derived)"]),
+]
+for n, h, c, f in _c10:
+    ob("C10." + n, ["C10", "C07"] if n in ("next", "set_mask", "len") else ["C10"], "chess-movegen", "iter::kani_verif_c10::" + h, kind="complete", flags="full", timeout=2400, mem_gb=8, functions=f, contract=c)
+ob("C10.cover", "C10", "chess-movegen", "iter::kani_verif_c10::c10_cover", kind="cover", flags="full", timeout=2400, mem_gb=8, contract="vacuity guard: 18 entries, mid-promotion cursor, knight promotion yielded, None with entries left")
+ob("C10.negtwin", "C10", "chess-movegen", "iter::kani_verif_c10::c10_negtwin", kind="negtwin", expect="refuted", flags="full", timeout=2400, mem_gb=8, contract="negated twin of len: must be refuted")
+ob("C10.K1.witness", "C10", "chess-movegen", "iter::kani_verif_c10::c10_k1_witness", kind="witness", expect="refuted", flags="full", timeout=900, mem_gb=4,
+   contract="open known finding K1, concrete witness: remove_move(a7a8=Q) must leave a7a8=R pending — must still be refuted")
+ob("C10.K2.witness", "C10", "chess-movegen", "iter::kani_verif_c10::c10_k2_witness", kind="witness", expect="refuted", flags="full", timeout=900, mem_gb=4,
+   contract="open known finding K2, concrete witness: set_mask while a promotion destination is partly expanded — must still be refuted")
+PROPERTY_META["C10"] = dict(
+    level="proof",
+    explanation="Contracts on every MoveGen operation over an ARBITRARY iterator value (up to the real capacity of 18 symbolic entries, symbolic mask, index and promotion cursor) under the structural invariant wf that construction and every operation establish (wf preservation is part of each postcondition); membership of a nondeterministic query move gives set-extensional equality of view/pending. Loops bounded by the capacity 18 with unwinding assertions. 'Every move exactly once under successive covering masks' and the engine staging (remove_move; set_mask(captures); drain; set_mask(all); drain) are lemmas over these contracts (not machine-checked). Two genuine defects are recorded as open known findings with narrow carve-outs (K1: remove_move ignores the promotion field; K2: set_mask/remove/remove_move while a promotion destination is partly expanded).",
+    assumptions=["generator establishes wf + 'entries of one source square have disjoint destinations' (C01 obligations)",
+                 "covering-masks and engine-staging statements follow from the per-operation contracts by the stated lemma (DESIGN section 5 C10), not machine-checked",
+                 "carve-outs of open known findings K1, K2 (known_findings.json)"],
+)
+
+# =========================================================================== C04 hash, C03 small
+host("chess-movegen", _MG, "kani_verif_c04", "harness/chess-movegen/c04.rs")
+host("chess-movegen", _MG, "kani_verif_c02", "harness/chess-movegen/c02.rs")
+ob("C04.xor", ["C04", "C02"], "chess-movegen", "kani_verif_c04::c04_xor", kind="complete", flags="full", timeout=1800, mem_gb=6,
+   functions=["Board::xor", "RawBoard::xor"], packaging="harness-stated contract; reused at call sites through the hand-instantiated contract stub xor_contract_stub (assert requires / havoc / assume ensures)",
+   contract="{|diff| <= 2 (every call site)} Board::xor(color, piece, diff) {colour set and piece set ^= diff, the other six sets unchanged, zobrist ^= keys of diff's squares for (piece, colour), every other field unchanged}")
+ob("C04.read", ["C04"], "chess-movegen", "kani_verif_c04::c04_read", kind="complete", flags="full", timeout=900, mem_gb=4,
+   functions=["Board::zobrist", "CastleRights::to_index"],
+   contract="zobrist() == piece-hash field ^ turn key ^ (e.p. file key if any) ^ castling key; independent of clocks and cached sets")
+ob("C04.eq_hash", ["C04"], "chess-movegen", "kani_verif_c04::c04_eq_hash", kind="complete", flags="full", timeout=1800, mem_gb=6,
+   functions=["<Board as PartialEq>::eq", "<Board as Hash>::hash", "Board::zobrist"],
+   contract="a == b <=> same placement, side, rights, e.p. file (clocks ignored); a == b => a.zobrist() == b.zobrist() (given hash field = function of placement); Hash feeds exactly zobrist()")
+ob("C04.standard", ["C04", "C05", "C03"], "chess-movegen", "kani_verif_c04::c04_standard", kind="ground", flags="full", timeout=1800, mem_gb=6,
+   functions=["Board::standard", "RawBoard::standard"],
+   contract="Board::standard(): hash literal == from-scratch piece hash; standard placement/turn/rights; valid; cached sets == spec")
+ob("C04.builder", ["C04", "C05"], "chess-movegen", "kani_verif_c04::c04_builder", kind="complete", flags="full", timeout=1800, mem_gb=6,
+   functions=["BoardBuilder::place", "BoardBuilder::remove", "RawBoard::set", "RawBoard::remove", "RawBoard::get", "RawBoard::color_of", "RawBoard::piece_of_unchecked"],
+   contract="place(pos,c,p): Ok iff pos empty, then sets and hash change by exactly that piece; refused => unchanged; remove(pos): removes the piece standing there and its key, or nothing; get == sets")
+ob("C03.in_check", ["C03"], "chess-movegen", "kani_verif_c04::c03_in_check", kind="complete", flags="full", timeout=1800, mem_gb=6,
+   functions=["Board::in_check"], contract="{cached checkers == spec, kings not adjacent} in_check() <=> the mover's king is attacked")
+ob("C04.cover", "C04", "chess-movegen", "kani_verif_c04::c04_cover", kind="cover", flags="full", timeout=900, mem_gb=4, contract="vacuity guard")
+ob("C04.negtwin", "C04", "chess-movegen", "kani_verif_c04::c04_negtwin", kind="negtwin", expect="refuted", flags="full", timeout=900, mem_gb=4, contract="negated twin: flipping the side to move keeps the hash - must be refuted")
+
+# =========================================================================== C03 pin info (foreach-loop proof), state, in_check
+_LK5 = ["chess_lookup::between", "chess_lookup::rook_rays", "chess_lookup::bishop_rays", "chess_lookup::knight_moves", "chess_lookup::pawn_attacks_moves"]
+_STUB_NOTE = "stub_verified: " + ", ".join(_LK5) + " (contracts discharged by C09.*)"
+ob("C03.pin_info.body", ["C03", "C06"], "chess-movegen", "kani_verif_c06::c03_pin_info_body", kind="complete", flags="full", timeout=1500, mem_gb=5, stubs=_LK5 + ["BitBoard::pop -> one-shot abstraction"],
+   functions=["Board::update_pin_info", "Board::king_sq"],
+   contract="{one king each} update_pin_info() with the one-shot iterator: the slider loop ranges over exactly pinners_spec; for an ARBITRARY pinner s: checkers = leaper checkers + {s} iff nothing between, pinned = the single blocker; no other field modified")
+ob("C03.pin_lemma", ["C03", "C06"], "chess-movegen", "kani_verif_c06::c03_pin_lemma", kind="complete", flags="full", timeout=1500, mem_gb=4,
+   functions=["(spec only) is_checker / is_pinned vs union of body contributions"],
+   contract="spec-only lemma: is_checker(q) <=> q is a leaper checker or a pinner with nothing between; is_pinned(q) <=> q is the single blocker of some pinner")
+ob("C03.pin_info.loop2", ["C03", "C06"], "chess-movegen", "kani_verif_c06::c03_pin_info_loop2", kind="bounded", bound="<= 2 enemy sliders aligned with the king (loop skeleton)", flags="full", timeout=2400, mem_gb=6, stubs=_LK5,
+   functions=["Board::update_pin_info"], contract="real iterator, <= 2 pinners: checkers/pinned == from-scratch spec at every square")
+ob("C03.pin_info.direct", ["C03"], "chess-movegen", "kani_verif_c06::c03_pin_info", kind="complete", flags="full", timeout=14400, mem_gb=16, tier="thorough", stubs=_LK5,
+   functions=["Board::update_pin_info"], contract="the whole contract in one query with the real 16-fold loop (no result within 20 min in development; thorough tier only)")
+ob("C03.state", ["C03"], "chess-movegen", "iter::kani_verif_c10::c03_state", kind="complete", flags="full", timeout=1500, mem_gb=6, stubs=["Board::legals -> arbitrary well-formed MoveGen (contracts C01/C10)"],
+   functions=["Board::state", "MoveGen::is_empty", "Board::in_check"],
+   contract="state() == CheckMate iff no legal move and in check; StaleMate iff no legal move and not in check, or half-move clock >= 100 (mate has priority); Check; Running — table over (|view(legals())| == 0, checkers non-empty, clock)")
+PROPERTY_META["C03"] = dict(
+    level="proof",
+    explanation="in_check/state: contracts under the representation invariant; from-scratch update_pin_info and the incremental re-scan at the end of make-move (C02.cache.*, all move kinds incl. castling-rook, promotion, under-promotion, en-passant discovered checks are just values of mv) are proved equal to the independent ray-walking spec as foreach-loop proofs: loop range == spec pinner set and loop body for an ARBITRARY member (complete), spec-only union lemma (complete), real-iterator skeleton with <= 2 members (bounded, labelled), BitBoardIter contract (C18). 'Indistinguishable from the same position built from scratch' then follows: under the invariant all cached fields are functions of the position (meta-argument, DESIGN 4).",
+    assumptions=["foreach-loop composition (body for arbitrary member + range + iterator contract => whole loop) is a meta-argument, not machine-checked; the real-loop skeleton is checked for <= 2 members only",
+                 "observers (legals, Display, Debug, Hash) read only the Board fields (safe functions of &Board)",
+                 "C02.cache.* obligations are decided by ./check C03 as well (listed below)"],
+    level_note="proof for body/range/lemma obligations; loop skeletons bounded(2) and labelled; induction over histories is the usual establish/preserve meta-argument",
+)
+
+# =========================================================================== C02 make-move
+_kinds = [("piece", "knight/bishop/rook/queen move or capture"), ("king", "king step or capture"), ("castle", "castling (either side, either colour)"), ("pawn", "pawn push, double step or capture"), ("ep", "en-passant capture"), ("promo", "promotion (with or without capture, all four pieces)")]
+_MK = ["Board::move_unchecked_into", "Board::king_sq", "RawBoard::piece_of_unchecked", "RawBoard::piece_of", "CastleRights::remove_for_sq", "Board::enpassant_pos"]
+_MKSTUBS = _LK5 + ["Board::xor -> contract stub (C04.xor)", "BitBoard::pop -> one-shot abstraction (slider re-scan loop)"]
+for k, d in _kinds:
+    ob("C02.place." + k, ["C02"], "chess-movegen", "kani_verif_c02::c02_place_" + k, kind="complete", flags="full", timeout=1800, mem_gb=5, stubs=_MKSTUBS, functions=_MK,
+       contract="{one king each, <=16 per side, rights only with king+rook home, e.p. marker valid, no back-rank pawns, clocks < 65535, mv pseudo-legal of kind: %s} move_unchecked_into(mv, out) {eight sets, side to move, castling rights, e.p. marker, half-move clock, full-move number of out == apply(view(self), mv); self unchanged}" % d)
+    ob("C04.hash." + k, ["C04", "C02"], "chess-movegen", "kani_verif_c02::c02_hash_" + k, kind="complete", flags="full", timeout=1800, mem_gb=5, stubs=_MKSTUBS, functions=_MK + ["Board::xor"],
+       contract="incremental hash, delta form, kind %s: out.zobrist == self.zobrist ^ keys of exactly the (square, piece, colour) triples the rules change (mover off/on, captured piece, e.p. victim, promotion swap, castling rook)" % d)
+    ob("C02.cache." + k, ["C03", "C02"], "chess-movegen", "kani_verif_c02::c02_cache_" + k, kind="complete", flags="full", timeout=1800, mem_gb=5, stubs=_MKSTUBS, functions=_MK,
+       contract="incremental check/pin sets, kind %s, foreach-loop body: re-scan ranges over exactly the successor's pinner set; for an ARBITRARY member: out.checkers = leaper checkers of the successor + {s} iff nothing between, out.pinned = the single blocker (with C03.pin_lemma: == from-scratch spec of the successor)" % d)
+ob("C02.cache.loop2", ["C03", "C02"], "chess-movegen", "kani_verif_c02::c02_cache_loop2", kind="bounded", bound="successor has <= 2 sliders aligned with the enemy king (loop skeleton)", flags="full", timeout=3600, mem_gb=8, stubs=_LK5 + ["Board::xor -> contract stub (C04.xor)"], functions=_MK,
+   contract="real iterator, every move kind: out.checkers/out.pinned == from-scratch spec of the successor at every square; successor position and hash delta as well")
+ob("C02.rights_table", ["C02", "C07"], "chess-movegen", "kani_verif_c02::c02_rights_table", kind="complete", flags="full", timeout=600, mem_gb=2, functions=["CastleRights::remove_for_sq", "CastleRights::to_index", "CastleRights::contains", "CastleRights::with"],
+   contract="remove_for_sq(colour, sq) for all 16 x 2 x 64 inputs clears exactly the rights whose king or rook home square is sq for that colour; nibble stays < 16")
+for n in ("move_new", "move_mut", "move_into"):
+    ob("C02.checked." + n, ["C02"], "chess-movegen", "kani_verif_c02::c02_" + n, kind="complete", flags="full", timeout=1500, mem_gb=6, stubs=["Board::is_legal -> contract stub (C01: == legal)", "Board::move_unchecked_into -> contract stub (C02.place.*)"],
+       functions=["Board::" + n, "Board::move_unchecked", "Board::move_unchecked_mut"],
+       contract="%s accepts exactly the legal moves (every (from,to,promotion) triple); accepted => result == successor; refused => self / output bit-for-bit untouched; the unchecked mutator is only reached with a legal move" % n)
+ob("C02.cover", "C02", "chess-movegen", "kani_verif_c02::c02_cover", kind="cover", flags="full", timeout=1500, mem_gb=5, contract="vacuity guard: castling by Black, e.p. by White, knight promotion with capture, double step, rights-changing piece move are all reachable under the preconditions")
+PROPERTY_META["C02"] = dict(
+    level="proof",
+    explanation="Contract of the only mutator Board::move_unchecked_into, taken from the property statement (spec apply(): placement incl. rook hop / e.p. victim / promoted piece, side to move, rights by the home-square rule, e.p. marker iff double step, clocks) and discharged on the real body for ALL boards satisfying the precondition and ALL pseudo-legal moves, per move kind; rights table for all 2048 inputs; checked operations for every (from,to,promotion) triple against the callee contracts. The slider re-scan loop is a foreach-loop proof (body complete, skeleton bounded(2) in C02.cache.loop2).",
+    assumptions=["callee contracts used at call sites: Board::xor (C04.xor), chess_lookup accessors (C09.*), is_legal == legal (C01.*)",
+                 "foreach-loop composition for the re-scan loop (it writes only checkers/pinned) is a meta-argument",
+                 "clock values below the 16-bit limit (the property's own restriction)"],
+)
+PROPERTY_META["C04"] = dict(
+    level="proof",
+    explanation="zobrist() composition and independence from clocks/cached sets; Eq/Hash coherence; Board::xor contract; builder place/remove deltas; standard() literal (ground); incremental hash in delta form for every move kind (C04.hash.*: out.zobrist == self.zobrist ^ keys of exactly the changed (square,piece,colour) triples), from which 'incremental == from scratch' follows by xor algebra under the invariant; all 794 keys pairwise distinct and non-zero (C04.keys, one query over all index pairs).",
+    assumptions=["xor-fold order independence / 'delta form + invariant => from-scratch equality' is algebra on xor, stated as a lemma (not machine-checked)",
+                 "FEN parser establishes the hash invariant: obligations C05.parse_tail / C05.constructors (bounded families)"],
+)
+
+# =========================================================================== C01 move generation
+_PC = "iter::pieces::kani_verif_c01::"
+_LKM = ["chess_lookup::between", "chess_lookup::line", "chess_lookup::knight_moves", "chess_lookup::rook_moves", "chess_lookup::bishop_moves"]
+_INV = "{representation invariant: valid position (one king each, <=16, rights/e.p. consistent, side not to move not in check, no back-rank pawns), cached checkers/pinned == spec}"
+for t, T in (("knight", "Knight"), ("bishop", "Bishop"), ("rook", "Rook"), ("queen", "Queen")):
+    for st, n in (("nocheck", 0), ("check", 1)):
+        ob("C01.%s.%s.body" % (t, st), ["C01"], "chess-movegen", _PC + "c01_%s_%s_body" % (t, st), kind="complete", flags="func", timeout=2400, mem_gb=6,
+           stubs=_LKM + ["BitBoard::pop -> one-shot abstraction (piece loops)"], functions=["<%s as PieceType>::legals::<%s>" % (T, "IN_CHECK" if n else "NO_CHECK"), "%s::pseudo_legals" % T, "check_mask", "Board::king_sq"],
+           contract=_INV + " with %d checker(s), any destination mask: for an ARBITRARY own %s picked by each of the two loops and EVERY destination d: the generated entries contain (src,d) exactly once iff legal(P,(src,d)) [make the move, test the king] and d in mask; no entry is empty, outside the mask or for a foreign square; at most one entry per loop body" % (n, t))
+ob("C01.knight.skipped", ["C01"], "chess-movegen", _PC + "c01_knight_skipped", kind="complete", flags="func", timeout=2400, mem_gb=6, functions=["(loop range) Knight: CAN_MOVE_IF_PINNED = false"],
+   contract=_INV + ": a pinned knight (never reached by the loops) has no legal move")
+for t, h in (("bishop", "b"), ("rook", "r"), ("queen", "q")):
+    ob("C01.%s.skipped" % t, ["C01"], "chess-movegen", _PC + "c01_slider_skipped_" + h, kind="complete", flags="func", timeout=2400, mem_gb=6, functions=["(loop range) PieceType::legals: pinned loop skipped when IS_IN_CHECK"],
+       contract=_INV + " with 1 checker: a pinned %s (second loop skipped while in check) has no legal move" % t)
+ob("C01.pawn.skipped", ["C01"], "chess-movegen", _PC + "c01_pawn_skipped", kind="complete", flags="func", timeout=2400, mem_gb=6, functions=["(loop range) Pawn::legals: pinned loop skipped when IS_IN_CHECK"],
+   contract=_INV + " with 1 checker: a pinned pawn has no legal non-en-passant move ... (query over every destination)")
+for st, n in (("nocheck", 0), ("check", 1)):
+    ob("C01.pawn.%s.body" % st, ["C01", "C10"], "chess-movegen", _PC + "c01_pawn_%s_body" % st, kind="complete", flags="func", timeout=3000, mem_gb=8,
+       stubs=["chess_lookup::between", "chess_lookup::line", "chess_lookup::pawn_moves", "chess_lookup::rook_moves", "chess_lookup::bishop_moves", "BitBoard::pop -> one-shot abstraction (three pawn loops incl. en passant)"],
+       functions=["<Pawn as PieceType>::legals::<%s>" % ("IN_CHECK" if n else "NO_CHECK"), "Pawn::pseudo_legals", "check_mask"],
+       contract=_INV + " with %d checker(s), any mask, every e.p. file or none: for an ARBITRARY pawn picked by each of the three loops (unpinned, pinned, en-passant capturers) and EVERY destination d and promotion choice: generated exactly once iff legal and masked (en passant decided by make-move: both pawns leave, king tested); promotion flag iff the pawn stands on its seventh rank" % n)
+ob("C01.king_position", ["C01", "C06"], "chess-movegen", _PC + "c01_king_position", kind="complete", flags="func", timeout=2400, mem_gb=6, stubs=_LK5 + ["chess_lookup::king_moves"],
+   functions=["Board::is_legal_king_position"], contract="{one king each, <= 16 per side} is_legal_king_position(dest) == dest is not attacked by the opponent once the mover's king is lifted off the board; all boards x all 64 squares (real 16-fold slider loop)")
+for st in ("nocheck", "check"):
+    ob("C01.king." + st, ["C01"], "chess-movegen", _PC + "c01_king_" + st, kind="complete", flags="func", timeout=2400, mem_gb=6, stubs=["chess_lookup::king_moves", "Board::is_legal_king_position -> contract stub (C01.king_position)"],
+       functions=["King::king_legals", "King::pseudo_legals"],
+       contract="{one king each, <=16, rights consistent, side not to move not in check, checkers non-empty <=> in check} king_legals, %s, all 16 rights values, any mask: for EVERY destination d: (king,d) generated iff legal(P,(king,d)) (and d in mask for ordinary steps); castling: right present, path empty, king not in check, transit and target squares not attacked; at most one entry, never empty" % st)
+ob("C01.check_mask", ["C01", "C07"], "chess-movegen", _PC + "c01_check_mask", kind="complete", flags="func", timeout=2400, mem_gb=6, stubs=["chess_lookup::between"],
+   functions=["check_mask"], contract="check_mask::<true> == between(king, checker) + checker with exactly one checker (its assert_eq! holds); check_mask::<false> == everything")
+ob("C01.is_legal", ["C01", "C02"], "chess-movegen", "iter::kani_verif_c10::c01_is_legal", kind="bounded", bound="move list of <= 2 entries x <= 3 destinations (the `any` loop)", flags="full", timeout=1500, mem_gb=6,
+   stubs=["Board::legals -> small arbitrary MoveGen"], functions=["Board::is_legal"], contract="is_legal(mv) <=> mv is among the moves legals() yields")
+ob("C01.cover", "C01", "chess-movegen", _PC + "c01_cover", kind="cover", flags="func", timeout=2400, mem_gb=6,
+   contract="vacuity guard: under the invariant there are positions with a legal move of a pinned rook, a legal en-passant capture, legal castling, and a pinned knight")
+PROPERTY_META["C01"] = dict(
+    level="proof",
+    explanation="Each per-type generator function of the real code is verified against make-move-and-test-the-king legality (independent spec, validated on published perft counts) for ALL boards satisfying the representation invariant, both colours, any mask, as a foreach-loop proof: loop body for an ARBITRARY member (one-shot iterator; complete), loop ranges / skipped members have no legal move (complete), BitBoardIter contract (C18); king moves and castling against the attacked-square contract of is_legal_king_position; check_mask; is_legal against the iterator (bounded list). NOT machine-checked: the 20-line dispatch in collect_moves (which per-type functions run for 0 / 1 / >= 2 checkers) and the composition of loop bodies into whole loops.",
+    assumptions=["dispatch in Board::collect_moves (0 checkers: all six NO_CHECK; 1 checker: five IN_CHECK + king; >= 2: king only) is covered by inspection only; with >= 2 checkers only king moves are legal (standard)",
+                 "foreach-loop composition is a meta-argument; real-iterator skeletons are checked in the thorough tier with <= 2 pieces (bounded)",
+                 "chess_lookup accessors replaced by their contracts (C08.*, C09.*)",
+                 "representation invariant is established/preserved by C06.*/C02.*/C03.* (induction over histories: meta-argument)"],
+    level_note="proof per obligation listed as complete; dispatch glue and loop composition by stated argument; is_legal loop bounded",
+)
+
+# =========================================================================== C05 / C06 FEN
+_FN = "fen::kani_verif_fen::"
+ob("C06.parse_piece", ["C06", "C05"], "chess-movegen", _FN + "c06_parse_piece", kind="complete", flags="full", timeout=900, mem_gb=3, functions=["fen::parse_piece"],
+   contract="ALL byte strings of length <= 3 (it inspects one byte): 12 letters -> (colour, piece), digits 1-8 -> run length, anything else -> None with the input untouched; consumes exactly one byte on success")
+ob("C06.parse_number", ["C06", "C05"], "chess-movegen", _FN + "c06_parse_number", kind="complete", flags="full", timeout=900, mem_gb=3, functions=["fen::parse_number"],
+   contract="ALL byte strings of length <= 6: value of the <= 4 leading digits, exactly those consumed, None iff no leading digit; no overflow")
+ob("C06.parse_small", ["C06", "C05"], "chess-movegen", _FN + "c06_parse_small", kind="complete", flags="full", timeout=900, mem_gb=3, functions=["fen::parse_whitespace", "fen::parse_dash", "fen::parse_castle_rights"],
+   contract="ALL byte strings of length <= 5: whitespace run consumed / error iff none; dash; castle letter: consume exactly what their spec says")
+ob("C06.total.4", ["C06", "C07"], "chess-movegen", _FN + "c06_total_4", kind="bounded", bound="all byte strings of length <= 4", flags="full", timeout=3000, mem_gb=14, functions=["fen::parse_fen"],
+   contract="parse_fen returns (no panic / overflow / out-of-bounds) on ALL byte strings of length <= 4")
+ob("C06.total.6", ["C06"], "chess-movegen", _FN + "c06_total_6", kind="bounded", bound="all byte strings of length <= 6", flags="full", timeout=7200, mem_gb=20, tier="thorough", functions=["fen::parse_fen"],
+   contract="parse_fen returns on ALL byte strings of length <= 6")
+ob("C06.total.tail", ["C06", "C07"], "chess-movegen", _FN + "c06_total_tail", kind="bounded", bound="valid placement field + ALL byte strings of length <= 7 for the remaining fields", flags="full", timeout=3000, mem_gb=14, functions=["fen::parse_fen", "Board::validate"],
+   contract="after a concrete valid placement: every byte string of length <= 7: no panic; Ok(b) => placement as in the text and b.validate() is Ok")
+ob("C05.parse_tail", ["C05", "C04", "C06"], "chess-movegen", _FN + "c05_parse_tail", kind="bounded", bound="one fixed placement; ALL values of the five trailing fields (2 x 16 x 9 x 10000 x 10000)", flags="full", timeout=3000, mem_gb=14, functions=["fen::parse_fen", "Board::update_pin_info"],
+   contract="parse_fen(placement ++ canonical text of (turn, rights, e.p., half, full)) == Ok(b) with exactly these fields, hash field == from-scratch piece hash, cached sets == spec")
+ob("C05.parse_rank", ["C05", "C06"], "chess-movegen", _FN + "c05_parse_rank", kind="bounded", bound="one symbolic rank (ranks 2..7, 13^8 contents), kings fixed, other ranks empty", flags="full", timeout=3000, mem_gb=14, functions=["fen::parse_fen"],
+   contract="parse_fen(canonical text) == Ok(board with exactly this placement), or a validation error when the position is not playable; never a syntax error")
+ob("C05.write_tail", ["C05"], "chess-movegen", _FN + "c05_write_tail", kind="bounded", bound="one fixed placement; ALL values of the five trailing fields incl. full 16-bit clocks", flags="full", timeout=3000, mem_gb=10, functions=["<Board as Display>::fmt", "<CastleRights as Debug>::fmt"],
+   contract="Display == canonical FEN text byte for byte: side, KQkq subset in that order or '-', e.p. square on the capture rank (6 for White to move, 3 for Black) or '-', clocks")
+ob("C05.write_rank", ["C05"], "chess-movegen", _FN + "c05_write_rank", kind="bounded", bound="one symbolic rank (any rank, 13^8 contents), other ranks empty", flags="full", timeout=3000, mem_gb=10, functions=["<Board as Display>::fmt", "RawBoard::get"],
+   contract="Display == canonical FEN text: piece letters, runs of empty squares as digits, '/' separators")
+ob("C05.constructors", ["C05", "C04"], "chess-movegen", _FN + "c05_constructors", kind="ground", flags="full", timeout=1500, mem_gb=4, functions=["Board::standard", "Board::builder", "BoardBuilder::place", "BoardBuilder::castle_rights", "BoardBuilder::build", "fen::parse_fen"],
+   contract="standard(), the builder fed with the standard placement, and parse_fen(standard FEN) are field-for-field identical (position, hash, cached sets)")
+ob("C06.fen_cover", ["C06", "C05"], "chess-movegen", _FN + "c06_fen_cover", kind="cover", flags="full", timeout=3000, mem_gb=14, contract="vacuity guard: accepted tail, trailing bytes, invalid en passant reachable")
+PROPERTY_META["C06"] = dict(
+    level="model_checking",
+    explanation="Validation half: PROOF — Board::validate() on a fully symbolic board: Ok => each of the five playability clauses (one assertion per clause), playable => Ok (no over-rejection), error classification; has_kings; BoardBuilder::build; update_pin_info (foreach-loop proof). Parser totality half: BOUNDED — helper parsers on all short byte strings (complete for the bytes they inspect), parse_fen on all byte strings up to a length bound and on a valid placement followed by all short tails. Long garbage inside the placement field is not covered.",
+    assumptions=["parser totality is bounded by input length (stated per obligation); the placement loop's panic sites are File::from_u8(file).unwrap() (file <= 7 at loop head by the 0..=7 / 8 / 9.. match) and ranks.next().unwrap() (once) — argued, not proved for unbounded input",
+                 "untrusted entry points (chess-wasm new_game_from_fen, CLI FromStr) only call parse_fen(s.as_bytes())"],
+    level_note="validate/build/pin-info: proof; parse_fen totality: bounded model checking by input length (labelled per obligation)",
+)
+PROPERTY_META["C05"] = dict(
+    level="model_checking",
+    explanation="BOUNDED families, each complete over its symbolic part: writer == canonical text for all values of the five trailing fields (fixed placement) and for one fully symbolic rank at a time; parser(canonical text) == position for all values of the five trailing fields and for one symbolic rank at a time (incl. hash field == from-scratch hash and cached sets == spec); field parsers as exact inverses of the field writers (complete); constructors agree (ground). The composition 'ranks are independent, fields are separated by one space and each field parser consumes exactly its field' is argued, not machine-checked.",
+    assumptions=["rank independence of writer (missing counter reset at every rank end) and parser (file counter reset) is by inspection; only one rank is symbolic per query",
+                 "clock values 0..9999 for the parse direction (the property's own range); writer proved for all 16-bit values"],
+    level_note="bounded model checking per family (labelled); field-level inverses complete; whole-string composition by stated argument",
+)
